@@ -72,7 +72,7 @@ func (f *MM) setInt(d int, v *big.Int) {
 // ---------------------------------------------------------------- C11
 
 func readAffine(e *secp256k1.Element) (x, y []byte) {
-	if secp256k1.VerifAccessor {
+	if rawOK {
 		xl, yl, _ := secp256k1.VerifLimbs(e)
 		rinv := new(big.Int).ModInverse(bigR, bigP)
 		return be32(mulmod(limbsToBig(*xl), rinv, bigP)), be32(mulmod(limbsToBig(*yl), rinv, bigP))
@@ -183,14 +183,14 @@ func genC11(m *M, budget int) {
 					hx, hy := readAffine(q)
 					f.emitF("MSswu", kv{"a", 1}, kv{"x", hx}, kv{"y", hy})
 					f.emitF("MIso", kv{"x", hx}, kv{"y", hy}, kv{"res", f.resultObs(secp256k1.IsogenySecp256k13iso(q))})
-				} else if secp256k1.VerifAccessor {
+				} else if rawOK {
 					e := secp256k1.NewElement()
 					xl, yl, zl := secp256k1.VerifLimbs(e)
 					*xl, *yl, *zl = montLimbs(h.x, bigP), montLimbs(h.y, bigP), montLimbs(one, bigP)
 					f.emitF("MIso", kv{"x", be32(h.x)}, kv{"y", be32(h.y)}, kv{"res", f.resultObs(secp256k1.IsogenySecp256k13iso(e))})
 				}
 			}
-			if secp256k1.VerifAccessor && j%5 == 4 {
+			if rawOK && j%5 == 4 {
 				if sx, sy := f.structuredXDenPoint(); sx != nil {
 					e := secp256k1.NewElement()
 					xl, yl, zl := secp256k1.VerifLimbs(e)
@@ -201,7 +201,7 @@ func genC11(m *M, budget int) {
 				}
 			}
 			// the isogeny on other points of E' (sums of mapped points), when raw coordinates can be written
-			if secp256k1.VerifAccessor && j%3 == 2 {
+			if rawOK && j%3 == 2 {
 				u2 := f.randBig(bigP)
 				x2, y2, _ := sswuRef(u2)
 				xb, yb := new(big.Int).SetBytes(x), new(big.Int).SetBytes(y)
